@@ -67,13 +67,15 @@ def histories(strict):
         "idle": st.sampled_from([0, 0, 20, 60]),
         "replays": st.lists(replay, min_size=2, max_size=12),
         "dt": st.sampled_from([0.017, 0.02, 0.034]),
+        "pos": st.sampled_from([0, 0, 65440, 65500, 65530]),          # datagram counters positioned close to the 16-bit wrap
+        "on_connect": st.sampled_from([0, 0, 1, 3]),                   # messages the client sends from inside its connect callback
     })
 
 
-def delivered_to(w, ch, target):
+def delivered_to(w, ch, target, first=0):
     dst = ch.laddr if target == "client" else w.server_addr
     now = w.clock.t
-    return [em for em in w.net.log if em.dst == dst and em.key is not None and em.fates and em.t + min(em.fates) <= now - 1e-9]
+    return [em for em in w.net.log[first:] if em.dst == dst and em.key is not None and em.fates and em.t + min(em.fates) <= now - 1e-9]
 
 
 def classify_duplicates(ctx, w, watches, strict):
@@ -112,11 +114,27 @@ def body(ctx, c):
     flags = set()
     with W.World(seed=c["seed"], flavour=c["flavour"]) as w:
         w.delivery_seqs = {}
-        ch = w.connect_client()
-        sconn = w.server_conn(ch.laddr)
-        watches = {"c": W.ConnWatch(ch.conn, w.clock), "s": W.ConnWatch(sconn, w.clock)}
         w.on_server_message.append(lambda client, seq, msg: w.delivery_seqs.setdefault((("s", client.addr), bytes(msg)), []).append(int(seq)))
         w.on_client_message.append(lambda chh, seq, msg: w.delivery_seqs.setdefault((("c", chh.laddr), bytes(msg)), []).append(int(seq)))
+        ch = w.add_client()
+        n_on = c.get("on_connect", 0)
+
+        def on_connected(ok):
+            # a login / join message sent from the connect callback travels in the same datagram as the challenge response
+            if ok:
+                for i in range(n_on):
+                    ch.send(W.payload_for(900000 + i, 24), retry=[0, -1, 1][i % 3], callback=False)
+        ch.udp.connect(w.server_addr, on_connected)
+        if not w.run(3.0, 0.017, until=lambda: ch.connected() and ch.laddr in w.ctxt.connections):
+            raise W.WorldError("honest handshake did not complete")
+        sconn = w.server_conn(ch.laddr)
+        w.run(0.2, 0.017)
+        if c.get("pos"):
+            W.position_seq(ch.conn, sconn, c["pos"])
+            W.position_seq(sconn, ch.conn, c["pos"])
+        watches = {"c": W.ConnWatch(ch.conn, w.clock), "s": W.ConnWatch(sconn, w.clock)}
+        # datagrams from before the (white-box) positioning belong to a different numbering and are never replayed
+        n_first = len(w.net.log) if c.get("pos") else 0
         link.t_base = w.clock.t
         w.net.policy = link
         uid = 0
@@ -142,7 +160,7 @@ def body(ctx, c):
                 conn = ch.conn if target == "client" else w.server_conn(ch.laddr)
                 if conn is None:
                     continue
-                pool = delivered_to(w, ch, target)
+                pool = delivered_to(w, ch, target, n_first)
                 if not pool:
                     continue
                 em = None
